@@ -145,6 +145,14 @@ package health
 //@   ensures result.Status == "healthy" ==> doCount > old(doCount)
 //@   ensures result.Status == "healthy" && xhas(hc.circuitBreaker.endpoints, endpoint.HealthCheckURLString) ==> xget(hc.circuitBreaker.endpoints, endpoint.HealthCheckURLString).failures == 0 && xget(hc.circuitBreaker.endpoints, endpoint.HealthCheckURLString).isOpen == 0
 //@   ensures doCount == old(doCount) ==> result.Status == "offline" || result.Status == "" || result.Status == "unhealthy"
+// C08: while the breaker for this URL is open (opened, and its timeout not yet elapsed since the last failure) nothing
+// is sent; a check that did probe and did not find the endpoint healthy adds one failure, a healthy one clears them
+//@   at return 1 assert doCount == old(doCount) && result.Status == "offline"
+//@   ensures old(xhas(hc.circuitBreaker.endpoints, endpoint.HealthCheckURLString) && xget(hc.circuitBreaker.endpoints, endpoint.HealthCheckURLString).isOpen == 1 && now <= xget(hc.circuitBreaker.endpoints, endpoint.HealthCheckURLString).lastFailure + 30000000000) ==> doCount == old(doCount)
+//@   at call RecordFailure 1 assert lastErr != nil || result.Status != "healthy"
+//@   at call RecordSuccess 1 assert lastErr == nil && result.Status == "healthy"
+//@   at return 3 assert xhas(hc.circuitBreaker.endpoints, healthCheckURL) && (old(xhas(hc.circuitBreaker.endpoints, endpoint.HealthCheckURLString)) ==> xget(hc.circuitBreaker.endpoints, healthCheckURL).failures == old(xget(hc.circuitBreaker.endpoints, endpoint.HealthCheckURLString).failures) + 1)
+//@   at return 4 assert result.Status != "healthy" ==> xhas(hc.circuitBreaker.endpoints, healthCheckURL) && (old(xhas(hc.circuitBreaker.endpoints, endpoint.HealthCheckURLString)) ==> xget(hc.circuitBreaker.endpoints, healthCheckURL).failures == old(xget(hc.circuitBreaker.endpoints, endpoint.HealthCheckURLString).failures) + 1)
 
 //@ ghost var recoveredFor string
 
